@@ -93,7 +93,8 @@ def run_c05(rep, tier, seed):
             try:
                 p = osyris.histogram2d(X, Y, L, S, resolution=n, xmin=float(s["lx"][0]), xmax=float(s["lx"][1]),
                                        ymin=float(s["ly"][0]), ymax=float(s["ly"][1]), plot=False)
-                p0 = osyris.histogram2d(X, Y, resolution=n, xmin=float(s["lx"][0]), xmax=float(s["lx"][1]), ymin=float(s["ly"][0]), ymax=float(s["ly"][1]), plot=False)
+                q = (lambda v, u: float(v) * osyris.units(u)) if i % 10 == 0 else (lambda v, u: float(v))      # limits as plain numbers or as Quantities
+                p0 = osyris.histogram2d(X, Y, resolution=n, xmin=q(s["lx"][0], "m"), xmax=q(s["lx"][1], "m"), ymin=q(s["ly"][0], "s"), ymax=q(s["ly"][1], "s"), plot=False)
             except Exception as e:
                 rep.mismatch({"module": "HistMachine", "field": "histogram2d-raises"}, f"histogram2d raised {type(e).__name__}: {e} on x={s['xs']}", case={"scenario": r}, module="hist")
                 continue
@@ -162,7 +163,7 @@ def run_c05(rep, tier, seed):
         numba.set_num_threads(t)
         with np.errstate(all="ignore"):
             try:
-                p = osyris.histogram2d(osyris.Array(xs, unit="m"), osyris.Array(ys, unit="s"), resolution=n, logx=logx, logy=logy, plot=False)
+                p = osyris.histogram2d(osyris.Array(xs, unit="m"), osyris.Array(ys, unit="s"), resolution={"x": n, "y": n} if j % 4 == 1 else n, logx=logx, logy=logy, plot=False)
             except Exception as e:
                 rep.mismatch({"module": "HistMachine", "field": "histogram2d-raises"}, f"histogram2d(auto limits) raised {type(e).__name__}: {e} on x={xs.tolist()} y={ys.tolist()}",
                              case={"xs": xs.tolist(), "ys": ys.tolist(), "n": n, "logx": logx, "logy": logy}, module="hist")
